@@ -169,6 +169,9 @@ macro_rules! instantiate_keys {
         $crate::h!(c08_asym_wrong_len_short, asym_key_wrong_len::<$v, { $pl - 1 }>($pls, &[$sl]));
         $crate::h!(c08_asym_wrong_len_long, asym_key_wrong_len::<$v, { $sl + 1 }>($pls, &[$sl]));
         $crate::h!(c08_asym_wrong_len_33, asym_key_wrong_len::<$v, 33>($pls, &[$sl]));
+        $crate::h!(c10_pke_key_wrong_len_32, pke_key_wrong_len::<$v, 32>($pls, &[$sl]));
+        $crate::h!(c10_pke_key_wrong_len_33, pke_key_wrong_len::<$v, 33>($pls, &[$sl]));
+        $crate::h!(c10_pke_key_wrong_len_short, pke_key_wrong_len::<$v, { $sl - 1 }>($pls, &[$sl]));
         $crate::h!(c04_key_decode_empty, key_decode_empty::<$v>());
         $crate::h!(c13_id_transcript_lid, id_transcript::<$v>($dom, $pfx, $pk, ".lid."));
         $crate::h!(c13_id_transcript_sid, id_transcript::<$v>($dom, $pfx, $pk, ".sid."));
